@@ -283,3 +283,12 @@ func refParts(v *Term, T types.Type) []*Term {
 	}
 	return nil
 }
+
+// arr: contents of the array object at base (element type E); array objects in
+// the immutable global region are read from the global state.
+func (s *State) arr(E types.Type, base *Term) *Term {
+	if s != gState && isGlobalAddr(base) {
+		return Select(globalState().amem(E), base)
+	}
+	return Select(s.amem(E), base)
+}
